@@ -29,7 +29,8 @@ Record case := {
 }.
 
 Definition hexc_idx (e : hexc) : nat :=
-  match e with XUser n => 10 + n | XNotFound => 0 | XLocked => 1 | XNoConnection => 2 | XNested => 3 | XDuplicate => 4 end%nat.
+  match e with XUser n => 10 + n | XNotFound => 0 | XLocked => 1 | XNoConnection => 2 | XNested => 3 | XDuplicate => 4
+          | XAssert => 5 | XRecursion => 6 | XBase n => 1000 + n end%nat.
 Definition result_eqb (a b : result) : bool :=
   match a, b with
   | Return x, Return y => list_eqb Z.eqb x y
@@ -91,3 +92,52 @@ Definition agree (c : case) : bool :=
 
 Fixpoint model_trace (g : hst) (sched : list nat) : list obs :=
   match sched with [] => [] | t :: rest => let g' := htick g t in observe g' :: model_trace g' rest end.
+
+(* ------------------------------------------------------------------ one caller, nested calls / BaseExceptions / bodies touching the hub *)
+(* DBConnection 0 is the caller's (thread slot, or process slot under process-level binding), 1 the process connection when the
+   caller has both, 2 a spare one; the body's hub.threadConnection = ... uses any of them *)
+Record ncase := {
+  nc_slot : option nat;                  (* hub.threadConnection before the call *)
+  nc_proc : option nat;                  (* hub.processConnection before the call *)
+  nc_table : list (Z * row) * Z;
+  nc_body : nbody;
+  (* seen when hub.doInTransaction(body) is through (the exception, if any, still held by the caller) *)
+  nc_result : result;
+  nc_after : list (Z * row) * Z;
+  nc_slot_after : option cref;
+  nc_proc_after : option cref;
+  nc_log : list nev;                     (* what the program noted down *)
+  nc_locked : bool;                      (* does anybody hold the write lock *)
+  (* seen after the exception object is dropped *)
+  nc_final_locked : bool;
+  nc_final_open : list nat               (* transactions still alive and not obsolete *)
+}.
+
+Definition nstart (c : ncase) : nst :=
+  {| n_committed := {| t_rows := fst (nc_table c); t_next := snd (nc_table c) |};
+     n_lock := None; n_slot := option_map CDb (nc_slot c); n_proc := option_map CDb (nc_proc c); n_txs := []; n_log := [] |}.
+
+Definition nev_eqb (a b : nev) : bool :=
+  match a, b with
+  | EStep x, EStep y => option_eqb cref_eqb x y
+  | EExit i o l, EExit i' o' l' => Nat.eqb i i' && Bool.eqb o o' && Bool.eqb l l'
+  | _, _ => false
+  end.
+
+Fixpoint open_ids (l : list ntx) (i : nat) : list nat :=
+  match l with [] => [] | x :: r => (if nx_open x then [i] else []) ++ open_ids r (S i) end.
+
+Definition nagree (c : ncase) : bool :=
+  let '(s, r) := ncall (nstart c) (nc_body c) in
+  let f := s in                          (* dropping the exception object changes nothing any more (e6ce2b8) *)
+  result_eqb r (nc_result c) &&
+  tab_eqb (t_rows (n_committed s), t_next (n_committed s)) (nc_after c) &&
+  option_eqb cref_eqb (n_slot s) (nc_slot_after c) && option_eqb cref_eqb (n_proc s) (nc_proc_after c) &&
+  list_eqb nev_eqb (n_log s) (nc_log c) &&
+  Bool.eqb (is_some (n_lock s)) (nc_locked c) &&
+  Bool.eqb (is_some (n_lock f)) (nc_final_locked c) && list_eqb Nat.eqb (open_ids (n_txs f) 0) (nc_final_open c).
+
+Inductive anycase := COld (c : case) | CNest (c : ncase).
+Definition agree_any (c : anycase) : bool := match c with COld c => agree c | CNest c => nagree c end.
+
+Definition nmodel (c : ncase) := let '(s, r) := ncall (nstart c) (nc_body c) in (r, n_committed s, n_slot s, n_proc s, n_log s, n_lock s, n_txs s).
